@@ -58,7 +58,7 @@ def gen_member(rng, k):
 
 
 def generate(rng, tier):
-    n = 400 if tier == "quick" else 6000
+    n = 400 if tier == "quick" else 25000
     for _ in range(n):
         r = rng.random()
         if r < 0.1:
